@@ -158,33 +158,39 @@ func checkC04(w *World, r *Report) {
 	r.Rule("R04.10", "number tokens: the characters LexNum collects are a subset of XPath Number's alphabet {0-9 .}", 1)
 	r.guard("R04.10", func() {
 		f := w.Method("xpath", "CommonLex", "LexNum")
-		fd, p := w.FuncDecl(f)
-		// the matcher is a func literal with a switch on its parameter returning true
+		fd, _ := w.FuncDecl(f)
+		// the matcher: the function value LexNum hands to ConstructToken; its accepted set is read
+		// off its result condition (switch, if-chain or a single expression alike)
 		var set ISet
 		found := false
-		ast.Inspect(fd.Body, func(n ast.Node) bool {
-			fl, ok := n.(*ast.FuncLit)
-			if !ok || found {
-				return true
-			}
-			par := p.TypesInfo.Defs[fl.Type.Params.List[0].Names[0]]
-			for _, sw := range switchesOn(fl.Body, func(e ast.Expr) bool { return objOfIdent(p, e) == par }) {
-				for _, a := range switchArms(p, sw) {
-					rets := returnsIn(a.Clause)
-					if len(rets) == 1 {
-						if v := ConstOf(p, rets[0].Results[0]); v != nil && v.Kind() == constant.Bool && constant.BoolVal(v) {
-							for _, c := range a.Consts {
-								if x, ok := intConst(c); ok {
-									set = set.union(isetOf(x))
-								}
-							}
-							found = true
-						}
+		if lf := w.SSAFunc(f); lf != nil {
+			for _, b := range lf.Blocks {
+				for _, in := range b.Instrs {
+					c, ok := in.(*ssa.Call)
+					if !ok || c.Call.StaticCallee() == nil || nm(c.Call.StaticCallee()) != "ConstructToken" || len(c.Call.Args) < 3 {
+						continue
+					}
+					v := c.Call.Args[2]
+					if ct, ok := v.(*ssa.ChangeType); ok {
+						v = ct.X
+					}
+					var mf *ssa.Function
+					switch x := v.(type) {
+					case *ssa.MakeClosure:
+						mf = x.Fn.(*ssa.Function)
+					case *ssa.Function:
+						mf = x
+					}
+					if mf == nil || len(mf.Params) != 1 || len(ssaLoops(mf)) > 0 {
+						continue
+					}
+					sym := NewSym(w)
+					if vals, ok := pcValuesWhen(sym.ResultCond(mf, nil), "p0"); ok {
+						set, found = vals, true
 					}
 				}
 			}
-			return true
-		})
+		}
 		if !found {
 			panic(undecided{"LexNum matcher"})
 		}
